@@ -83,6 +83,21 @@ func mapProtocol(r *Run, prop string, idx int) *core.Report {
 		// P13 (generic keys): keys that compare equal hash equal under every seed (restated from C10)
 		n13 := borrow(rep, C10(r), prop+".P13", "C10.H")
 		rep.MinCount(prop+".P13", "premise obligations (hash agrees with ==)", n13, 4)
+	} else {
+		// P13 (string keys): equal strings hash equal - the byte hash is applied to exactly the bytes of the key, wherever
+		// they are in memory (restated from C10.H3 for the functions that hash strings)
+		n13 := 0
+		for _, o := range C10(r).Obs {
+			if o.Trivial || o.Rule != "C10.H3" || !strings.Contains(o.Construct, "memhash") {
+				continue
+			}
+			c := *o
+			c.Construct = "[" + o.Rule + "] " + o.Construct
+			c.Rule = prop + ".P13"
+			rep.Obs = append(rep.Obs, &c)
+			n13++
+		}
+		rep.MinCount(prop+".P13", "premise obligations (the string hash reads the key's bytes)", n13, 1)
 	}
 	return rep
 }
